@@ -42,7 +42,7 @@ func EnumPathsFrom(start *ssa.BasicBlock, maxVisit, limit int, visit func(path [
 				visit(cp)
 			}
 		} else {
-			for _, s := range b.Succs {
+			for _, s := range FeasibleSuccs(b) {
 				if !rec(s) {
 					ok = false
 					break
@@ -298,4 +298,18 @@ func ErrKnownNonNil(v ssa.Value, nonNil map[ssa.Value]bool) bool {
 		return false
 	}
 	return rec(v)
+}
+
+// FeasibleSuccs returns the successors of b that can be taken: a block that ends in an If on a boolean constant
+// (`if false && …`, a never-assigned flag) has only one.
+func FeasibleSuccs(b *ssa.BasicBlock) []*ssa.BasicBlock {
+	if iff := BlockIf(b); iff != nil && len(b.Succs) == 2 {
+		if k, ok := iff.Cond.(*ssa.Const); ok && k.Value != nil && k.Value.Kind() == constant.Bool {
+			if constant.BoolVal(k.Value) {
+				return b.Succs[:1]
+			}
+			return b.Succs[1:]
+		}
+	}
+	return b.Succs
 }
